@@ -48,6 +48,12 @@ impl Prop for C15 {
                 v.push(NM { n, m, layout: *layout, captured });
             }
         }
+        for layout in long_layouts(tier == Tier::Thorough) {
+            let (n, m) = layout_lens(&layout, 0, 0);
+            for captured in [false, true] {
+                v.push(NM { n, m, layout, captured });
+            }
+        }
         for n in 0..=max {
             for m in 0..=max {
                 for captured in [false, true] {
@@ -130,6 +136,9 @@ impl Prop for C15 {
         if lis >= 2 {
             engine::witness("paths_with_two_or_more_ordered_anchors");
         }
+        if matches!(s.layout, Layout::Long { .. }) {
+            engine::witness("long_structured_paths");
+        }
         if k > lis {
             engine::witness("paths_with_crossing_anchors");
         }
@@ -161,10 +170,10 @@ impl Prop for C15 {
                 "similar::algorithms::myers::diff_deadline over UniqueItem sequences and over the gaps",
                 "similar::capture_diff(Algorithm::Patience, ..) for the captured variant",
             ],
-            bounds: format!("n,m in 0..={} symbolic items, whole slices and offset lookups, raw callbacks and captured ops; plus block-structured inputs (up to 4 blocks of 2 items a side over 3 block types with all items of different types different; thorough also block lengths 1, 3 and 5 blocks), where the shape fixes the equality pattern; the reference (which items are unique on both sides, longest in-order subset) is computed by the harness from solver-decided comparisons", match tier { Tier::Quick => 4, Tier::Thorough => 5 }),
+            bounds: format!("n,m in 0..={} symbolic items, whole slices and offset lookups, raw callbacks and captured ops; plus block-structured inputs (up to 4 blocks of 2 items a side over 3 block types with all items of different types different; thorough also block lengths 1, 3 and 5 blocks), where the shape fixes the equality pattern; plus the long structured families of common.rs::long_layouts (about 30 (thorough 53) inputs of 40..600 items a side, e.g. one or two unique items moved across a body of 100..300 repeated items); the reference (which items are unique on both sides, longest in-order subset) is computed by the harness from solver-decided comparisons", match tier { Tier::Quick => 4, Tier::Thorough => 5 }),
             outside: "longer inputs; deadlines".into(),
             assumptions: vec!["constant Hash for symbolic items (lawful)".into()],
-            required_witnesses: vec!["paths_with_two_or_more_ordered_anchors", "paths_with_crossing_anchors"],
+            required_witnesses: vec!["paths_with_two_or_more_ordered_anchors", "paths_with_crossing_anchors", "long_structured_paths"],
             rule: "one state = one explored path (equality pattern) of patience on one shape".into(),
         }
     }
@@ -205,6 +214,8 @@ pub enum WorkShape {
     /// a block of `skel` pairwise-different items occurring twice on both sides (every value is
     /// repeated, none unique); `tail` extra different items follow on the new side
     DupBlock { alg: Algorithm, skel: usize, tail: usize },
+    /// a long structured input of common.rs::long_layouts
+    Long { alg: Algorithm, layout: Layout },
 }
 pub struct C19;
 
@@ -289,6 +300,11 @@ impl Prop for C19 {
             };
             for &(skel, k) in scat {
                 v.push(WorkShape::Scattered { alg, skel, k });
+            }
+            for layout in long_layouts(tier == Tier::Thorough) {
+                if matches!(layout, Layout::Long { pad: 0, .. }) {
+                    v.push(WorkShape::Long { alg, layout });
+                }
             }
             let dup: &[usize] = match tier {
                 Tier::Quick => &[100],
@@ -406,6 +422,11 @@ impl Prop for C19 {
                 n.extend(fresh);
                 (*alg, o, n)
             }
+            WorkShape::Long { alg, layout } => {
+                let inp = make_inputs(0, 0, *layout);
+                engine::witness("long_structured_paths");
+                (*alg, inp.old_items.clone(), inp.new_items.clone())
+            }
             WorkShape::Repeats { alg, skel, pos, old_word, new_word } => {
                 let sk = Sym::fresh_vec(*skel);
                 engine::assume(&F::Distinct(sk.iter().map(|x| x.0).collect()));
@@ -478,7 +499,7 @@ impl Prop for C19 {
         let c = konst(if alg == Algorithm::Myers { "c19_myers_C" } else { "c19_patience_C" });
         let bound = c * (n as u64 + m as u64 + 1) * (d as u64 + 1);
         engine::stat_max(
-            &format!("{}_{}_comparisons_x100_per_(N+M+1)(D+1)", alg_name(alg), match s { WorkShape::Small { .. } => "small", WorkShape::Skeleton { .. } => "skeleton", WorkShape::Repeats { .. } => "repeats", WorkShape::Scattered { .. } => "scattered", WorkShape::DupBlock { .. } => "dupblock" }),
+            &format!("{}_{}_comparisons_x100_per_(N+M+1)(D+1)", alg_name(alg), match s { WorkShape::Small { .. } => "small", WorkShape::Skeleton { .. } => "skeleton", WorkShape::Repeats { .. } => "repeats", WorkShape::Scattered { .. } => "scattered", WorkShape::DupBlock { .. } => "dupblock", WorkShape::Long { .. } => "long" }),
             cmps * 100 / ((n as u64 + m as u64 + 1) * (d as u64 + 1)),
         );
         if d >= 1 {
@@ -508,6 +529,10 @@ impl Prop for C19 {
             WorkShape::Repeats { skel, .. } => *skel as u64 / 50 + 2,
             WorkShape::Scattered { skel, k, .. } => (*skel * *k) as u64 / 100,
             WorkShape::DupBlock { skel, .. } => *skel as u64 / 25,
+            WorkShape::Long { layout, .. } => {
+                let (n, m) = layout_lens(layout, 0, 0);
+                (n + m) as u64 / 20
+            }
         }
     }
     fn shape_json(&self, s: &WorkShape) -> Value {
@@ -515,13 +540,16 @@ impl Prop for C19 {
             WorkShape::Small { alg, n, m } => json!({"kind": "small", "alg": alg_name(*alg), "n": n, "m": m}),
             WorkShape::Skeleton { alg, skel, old_extra, new_extra } => json!({"kind": "skeleton", "alg": alg_name(*alg), "skel": skel, "old_extra": old_extra, "new_extra": new_extra}),
             WorkShape::DupBlock { alg, skel, tail } => json!({"kind": "dupblock", "alg": alg_name(*alg), "skel": skel, "tail": tail}),
+            WorkShape::Long { alg, layout } => json!({"kind": "long", "alg": alg_name(*alg), "layout": layout.to_json()}),
             WorkShape::Scattered { alg, skel, k } => json!({"kind": "scattered", "alg": alg_name(*alg), "skel": skel, "k": k}),
             WorkShape::Repeats { alg, skel, pos, old_word, new_word } => json!({"kind": "repeats", "alg": alg_name(*alg), "skel": skel, "pos": pos, "old_word": old_word, "new_word": new_word}),
         }
     }
     fn shape_from(&self, v: &Value) -> WorkShape {
         let alg = alg_from(v["alg"].as_str().unwrap());
-        if v["kind"] == "small" {
+        if v["kind"] == "long" {
+            WorkShape::Long { alg, layout: Layout::from_json(&v["layout"]) }
+        } else if v["kind"] == "small" {
             WorkShape::Small { alg, n: v["n"].as_u64().unwrap() as usize, m: v["m"].as_u64().unwrap() as usize }
         } else if v["kind"] == "dupblock" {
             WorkShape::DupBlock { alg, skel: v["skel"].as_u64().unwrap() as usize, tail: v["tail"].as_u64().unwrap() as usize }
@@ -541,6 +569,7 @@ impl Prop for C19 {
             WorkShape::Skeleton { skel, .. } => json!({"skeleton_items": &ints[..(*skel).min(ints.len())].len(), "free_items": &ints[(*skel).min(ints.len())..]}),
             WorkShape::Scattered { skel, k, .. } => json!({"skeleton_items": skel, "scattered_substitutions": k}),
             WorkShape::DupBlock { skel, tail, .. } => json!({"block_of_different_items_occurring_twice": skel, "extra_items_at_the_end_of_new": tail}),
+            WorkShape::Long { layout, .. } => describe_inputs(0, 0, *layout, ints),
             WorkShape::Repeats { skel, pos, old_word, new_word, .. } => json!({"skeleton_items": skel, "word_position": match *pos { 1 => "middle", 2 => "end", _ => "before the last skeleton item" }, "old_word": old_word, "new_word": new_word, "values_of_the_two_free_symbols": &ints[(*skel).min(ints.len())..]}),
         }
     }
@@ -554,10 +583,10 @@ impl Prop for C19 {
                 "similar::algorithms::patience::diff_deadline (+ unique, Patience hook)",
                 "similar::algorithms::utils::{common_prefix_len, common_suffix_len}",
             ],
-            bounds: format!("(a) every input with n,m in 0..={} (Patience 0..=5), D from a reference LCS (Myers) or the reported script (Patience); (e) duplicated block: 100 (thorough up to 400) different items occurring twice on both sides, 0..2 extra items on the new side; (d) scattered edits: 200 (thorough up to 800) pairwise-different items with 10 / 30 (40) evenly scattered substitutions, so D = 2k grows; (c) repeated-item edits: a skeleton of 100 (thorough 50/100/200) pairwise-different items with a word of length 2..=3 (4), or of length 4..=5 (5..=6) in which every symbol is repeated on both sides, over two free symbols spliced into the middle, at the end, or before the last skeleton item, old and new words of the same length differing in one or two places; (b) skeleton family: {} shared pairwise-distinct items (one z3 distinct) on both sides plus up to {} free symbolic items at front/middle/end of either side, all values of the free items; comparisons counted at PartialEq/Ord of the element type; constants C={} (Myers), C={} (Patience) from constants.json", match tier { Tier::Quick => 5, Tier::Thorough => 6 }, match tier { Tier::Quick => "50/100/200", Tier::Thorough => "50/100/200/400/800" }, match tier { Tier::Quick => 2, Tier::Thorough => 3 }, konst("c19_myers_C"), konst("c19_patience_C")),
+            bounds: format!("(f) the long structured families of common.rs::long_layouts (about 24 (thorough 47) inputs of 40..600 items a side: repeated-item stretches between unique items, unique items moved across a repetitive body, mostly different inputs with few common items, chains in which every value occurs twice, runs / periodic stretches, doubled items / blocks, every 16th item replaced); (a) every input with n,m in 0..={} (Patience 0..=5), D from a reference LCS (Myers) or the reported script (Patience); (e) duplicated block: 100 (thorough up to 400) different items occurring twice on both sides, 0..2 extra items on the new side; (d) scattered edits: 200 (thorough up to 800) pairwise-different items with 10 / 30 (40) evenly scattered substitutions, so D = 2k grows; (c) repeated-item edits: a skeleton of 100 (thorough 50/100/200) pairwise-different items with a word of length 2..=3 (4), or of length 4..=5 (5..=6) in which every symbol is repeated on both sides, over two free symbols spliced into the middle, at the end, or before the last skeleton item, old and new words of the same length differing in one or two places; (b) skeleton family: {} shared pairwise-distinct items (one z3 distinct) on both sides plus up to {} free symbolic items at front/middle/end of either side, all values of the free items; comparisons counted at PartialEq/Ord of the element type; constants C={} (Myers), C={} (Patience) from constants.json", match tier { Tier::Quick => 5, Tier::Thorough => 6 }, match tier { Tier::Quick => "50/100/200", Tier::Thorough => "50/100/200/400/800" }, match tier { Tier::Quick => 2, Tier::Thorough => 3 }, konst("c19_myers_C"), konst("c19_patience_C")),
             outside: "periodic, small-alphabet, unrelated and block-move inputs of hundreds or thousands of items: the number of equality patterns explodes, a path-enumerating symbolic executor cannot cover them; (a) says nothing about growth and (b) is one family. Hash-map work inside Patience's unique() with a constant hash is quadratic by construction of the harness and is not counted (only element comparisons made by the algorithm's own code and by HashMap key equality are)".into(),
             assumptions: vec!["a comparison = one call of PartialEq::eq / Ord::cmp on the element type".into()],
-            required_witnesses: vec!["paths_with_edits", "skeleton_paths", "repeated_item_edit_paths", "scattered_edit_paths"],
+            required_witnesses: vec!["paths_with_edits", "skeleton_paths", "repeated_item_edit_paths", "scattered_edit_paths", "long_structured_paths"],
             rule: "one state = one explored path; the claim is a per-path inequality on the measured comparison count".into(),
         }
     }
@@ -574,6 +603,8 @@ pub struct DetShape {
     /// items replaced by fresh different ones (positions depend on the variant v): many unique
     /// items on both sides with several equally good alignments, a single path
     pub permuted: Option<usize>,
+    /// Some: a long structured input of common.rs::long_layouts (single path)
+    pub long: Option<Layout>,
 }
 pub struct C20;
 
@@ -591,7 +622,7 @@ impl Prop for C20 {
         for alg in ALGS {
             for n in 0..=max {
                 for m in 0..=max {
-                    v.push(DetShape { alg, n, m, permuted: None });
+                    v.push(DetShape { alg, n, m, permuted: None, long: None });
                 }
             }
             let sizes: &[usize] = match tier {
@@ -600,7 +631,16 @@ impl Prop for C20 {
             };
             for &n in sizes {
                 for variant in 0..4 {
-                    v.push(DetShape { alg, n, m: n, permuted: Some(variant) });
+                    v.push(DetShape { alg, n, m: n, permuted: Some(variant), long: None });
+                }
+            }
+            for layout in long_layouts(tier == Tier::Thorough) {
+                let (n, m) = layout_lens(&layout, 0, 0);
+                if alg == Algorithm::Lcs && n * m > 60_000 {
+                    continue;
+                }
+                if matches!(layout, Layout::Long { pad: 0, .. }) {
+                    v.push(DetShape { alg, n, m, permuted: None, long: Some(layout) });
                 }
             }
         }
@@ -611,8 +651,14 @@ impl Prop for C20 {
         // the symbolic items hash to a constant, also when a counterexample is replayed: an
         // item type whose Hash is coarser than its Eq is lawful, and the ops must not depend on it
         engine::keep_constant_hash_in_replay();
-        let old = Sym::fresh_vec(s.n);
-        let mut new = Sym::fresh_vec(s.m);
+        let (old, mut new) = match s.long {
+            Some(layout) => {
+                let inp = make_inputs(0, 0, layout);
+                engine::witness("long_structured_paths");
+                (inp.old_items.clone(), inp.new_items.clone())
+            }
+            None => (Sym::fresh_vec(s.n), Sym::fresh_vec(s.m)),
+        };
         if let Some(variant) = s.permuted {
             let all: Vec<u32> = old.iter().chain(new.iter()).map(|x| x.0).collect();
             engine::assume(&F::Distinct(all));
@@ -650,6 +696,13 @@ impl Prop for C20 {
         let ns: Vec<String> = nv.iter().map(|v| format!("{:020}", (v - lo) as u64 * 7 + 3)).collect();
         let ops_s = capture_diff_slices(s.alg, &os, &ns);
         claim!(ops_s == ops, "String items (order-preserving injective relabelling) give different ops: {:?} vs {:?} (old {:?} new {:?})", ops_s, ops, os, ns);
+        // further order-preserving injective relabellings v -> a*v + b (other values, other hashes)
+        for (a, b) in [(3i64, 1_000_003i64), (5, 77), (11, 9), (13, 123_456_789), (17, 5), (1_000_003, 0), (2, -40_000_000_000)] {
+            let oa: Vec<i64> = ov.iter().map(|v| a * (v - lo) + b).collect();
+            let na: Vec<i64> = nv.iter().map(|v| a * (v - lo) + b).collect();
+            let ops_a = capture_diff_slices(s.alg, &oa, &na);
+            claim!(ops_a == ops, "relabelling v -> {}*v + {} gives different ops: {:?} vs {:?} (old {:?} new {:?})", a, b, ops_a, ops, oa, na);
+        }
         let (ov2, nv2) = (ov.clone(), nv.clone());
         let alg = s.alg;
         let ops_t = std::thread::spawn(move || capture_diff_slices(alg, &ov2, &nv2)).join().unwrap();
@@ -661,13 +714,13 @@ impl Prop for C20 {
         (s.n + s.m) as u64
     }
     fn shape_json(&self, s: &DetShape) -> Value {
-        json!({"alg": alg_name(s.alg), "n": s.n, "m": s.m, "permuted": s.permuted})
+        json!({"alg": alg_name(s.alg), "n": s.n, "m": s.m, "permuted": s.permuted, "long": s.long.map(|l| l.to_json())})
     }
     fn shape_from(&self, v: &Value) -> DetShape {
-        DetShape { alg: alg_from(v["alg"].as_str().unwrap()), n: v["n"].as_u64().unwrap() as usize, m: v["m"].as_u64().unwrap() as usize, permuted: v["permuted"].as_u64().map(|x| x as usize) }
+        DetShape { alg: alg_from(v["alg"].as_str().unwrap()), n: v["n"].as_u64().unwrap() as usize, m: v["m"].as_u64().unwrap() as usize, permuted: v["permuted"].as_u64().map(|x| x as usize), long: if v["long"].is_object() { Some(Layout::from_json(&v["long"])) } else { None } }
     }
     fn describe(&self, s: &DetShape, ints: &[i64], _b: &[bool]) -> Value {
-        describe_inputs(s.n, s.m, PLAIN, ints)
+        describe_inputs(s.n, s.m, s.long.unwrap_or(PLAIN), ints)
     }
     fn recheck_every(&self, _tier: Tier) -> u64 {
         1 // every leaf is also re-executed natively (items keep their coarse hash; the i64 / String instantiations hash by value)
@@ -678,10 +731,10 @@ impl Prop for C20 {
                 "similar::capture_diff_slices -> Compact<Replace<Capture>> + myers/patience/lcs",
                 "similar::algorithms::utils::unique (std HashMap, RandomState) inside patience",
             ],
-            bounds: format!("3 algorithms x n,m in 0..={} (plus inputs of 32 / 48 (thorough up to 96) pairwise different items with three swapped adjacent pairs and four replaced items, 4 variants); on every explored path (= equality pattern): two symbolic executions, one native re-execution of the Sym items with value hashing, plus the path's model instantiated as i64 and as order-preserving String relabelling, diffed natively (also on a second thread); all must return the path's ops", match tier { Tier::Quick => 4, Tier::Thorough => 5 }),
+            bounds: format!("3 algorithms x n,m in 0..={} (plus inputs of 32 / 48 (thorough up to 96) pairwise different items with three swapped adjacent pairs and four replaced items, 4 variants; plus the long structured families of common.rs::long_layouts: about 24 (thorough 47) inputs of 40..600 items a side, e.g. 300 different items a side with 1 or 3 common interior items); on every explored path (= equality pattern): two symbolic executions, one native re-execution of the Sym items with value hashing, plus the path's model instantiated as i64, as order-preserving String relabelling and under seven affine relabellings v -> a*v+b, diffed natively (also on a second thread); all must return the path's ops", match tier { Tier::Quick => 4, Tier::Thorough => 5 }),
             outside: "quantification over hasher seeds and thread schedules is NOT decided (they are not inputs a solver controls here: each execution draws fresh RandomState keys, that is all); the str-vs-[u8] text clause is reduced to C06's tokenizer equivalence plus this relabelling clause".into(),
             assumptions: vec!["a symbolic path stands for every input with its equality/order pattern because Sym carries no value".into()],
-            required_witnesses: vec!["paths_with_changes", "large_permuted_paths"],
+            required_witnesses: vec!["paths_with_changes", "large_permuted_paths", "long_structured_paths"],
             rule: "one state = one equality pattern (explored path); 5 executions of the real code per state".into(),
         }
     }
